@@ -285,7 +285,9 @@ def proof_obligations(pid, tier):
                                  "equivalence theorems (regenerated files that differ from the committed ones: "
                                  + (", ".join(gen["changed_files"]) or "none") + "; untranslatable targets: "
                                  + (", ".join(t_["rust"] for t_ in gen["failed_targets"]) or "none") + "): "
-                                 + " | ".join(e[:300] for e in errs))
+                                 + " | ".join(e[:300] for e in errs)
+                                 + " || bridge to the committed definitions: "
+                                 + str((res["extracted"].get("bridge") or {}).get("reason", "not attempted"))[:400])
         else:
             ok = audit_axioms(pid, "x", ximports, xnames, res)
             res["discharged"] += ok
